@@ -55,9 +55,12 @@ Proof. exact occurrence_in_one_chunk. Qed.
 (* non-vacuity: a concrete region meets the hypotheses of C19_chunks_tile *)
 (* The pagemap optimisation is transparent: a fetch of a file-backed chunk — file-backed pages read from the
    backing file (zero past its end), the pages the pagemap marks present-or-swapped and not file-backed
-   re-read from /proc/pid/mem — returns exactly the process's own view of the chunk, whenever the kernel is
-   coherent (a page not sent to memory holds the file's bytes).  Every mapping, file length, file offset,
-   chunk position, fetch cap and set of modified pages. *)
+   re-read from /proc/pid/mem, and (since the repair of C19-shared-tail-beyond-eof) the present page that
+   holds the end of the file re-read too — returns exactly the process's own view of the chunk, whenever the
+   kernel is coherent (a page not sent to memory holds the file's bytes).  Every mapping, file length, file
+   offset, chunk position, fetch cap and set of modified pages.  The coherence hypothesis no longer covers
+   the page holding the end of the file when the process has touched it: what a shared mapping wrote there
+   past the end of the file is exactly what the hypothesis was false for. *)
 Theorem C19_fetch_is_view :
   forall fs prm c view,
     0 < page prm -> r_backed (c_reg c) = true ->
@@ -71,7 +74,8 @@ Theorem C19_fetch_is_view :
     off <= r_fsize (c_reg c) ->
     st / page prm + npages <= pm_entries fs ->
     read_mem fs st ln = Some view ->
-    (forall i k, i < npages -> page_from_mem (assoc_bits (pm_bits fs) (st / page prm + i)) = false ->
+    (forall i k, i < npages ->
+                 page_reread fs (st / page prm) (partial_page (page prm) (r_fsize (c_reg c) - off) ln) i = false ->
                  (k < N.to_nat (page prm))%nat ->
                  nth (N.to_nat (i * page prm) + k) view 0 = nth (N.to_nat (i * page prm) + k) buf0 0) ->
     model_fetch fs prm c = OFetched st view.
@@ -93,6 +97,18 @@ Example C19_fetch_example :
   read_mem fs 8 8 = Some [9; 9; 9; 9; 5; 6; 0; 0]
   /\ model_fetch fs prm c = OFetched 8 [9; 9; 9; 9; 5; 6; 0; 0]
   /\ page_from_mem (assoc_bits (pm_bits fs) 2) = true /\ page_from_mem (assoc_bits (pm_bits fs) 3) = false.
+Proof. vm_compute. repeat split. Qed.
+
+(* the repaired case: the same mapping; the process wrote 7, 7 past the end of the file through a shared
+   mapping: the second page is present and still file-backed (bits 1010) and holds the end of the file, so it
+   is re-read and the fetch returns the process's view *)
+Example C19_shared_tail_example :
+  let fs := {| mem_size := 32; mem_segs := [(8, [1; 2; 3; 4; 5; 6; 7; 7])]; pm_entries := 8; pm_bits := [(3, 10)] |} in
+  let prm := {| chunk := None; max_fetch := 1000; page := 4 |} in
+  let c := {| c_reg := {| r_start := 8; r_len := 8; r_backed := true; r_foff := 0; r_file := [1; 2; 3; 4; 5; 6] |}; c_off := 0 |} in
+  model_fetch fs prm c = OFetched 8 [1; 2; 3; 4; 5; 6; 7; 7]
+  /\ page_from_mem (assoc_bits (pm_bits fs) 3) = false
+  /\ page_reread fs 2 (partial_page 4 6 8) 1 = true.
 Proof. vm_compute. repeat split. Qed.
 
 Example C19_tile_example :
